@@ -47,7 +47,7 @@ def c34_str(s: str) -> bool:
 
 def c34_int(x: int) -> bool:
     """
-    pre: -10**SL() < x < 10**SL()
+    pre: SL()[0] <= x <= SL()[1]
     post: _
     """
     return guard(lambda: _roundtrip(x), x=x)
@@ -77,6 +77,10 @@ def c34_dict(s: str, x: int) -> bool:
 
 
 _FN = FUNCTIONS
+_INT_Q = [(-300, 300), (2 ** 53 - 4, 2 ** 53 + 12), (2 ** 63 - 6, 2 ** 63 + 6), (-(2 ** 63) - 6, -(2 ** 63) + 6),
+          (10 ** 22 - 3, 10 ** 22 + 9)]
+_INT_T = _INT_Q + [(-3000, -300), (300, 3000), (10 ** 6 - 50, 10 ** 6 + 50), (2 ** 64 - 6, 2 ** 64 + 6),
+                   (-(2 ** 53) - 12, -(2 ** 53) + 4), (10 ** 40 - 3, 10 ** 40 + 9), (2 ** 31 - 6, 2 ** 31 + 6)]
 _Q = [(0, "", "any"), (1, "", "ascii"), (2, "", "steer")] + [(3, ch, "steer") for ch in '0-tn.']
 _T = ([(0, "", "any"), (1, "", "any"), (2, "", "steer")] + [(2, ch, "ascii") for ch in _ALPHA]
       + [(3, ch, "steer") for ch in _ALPHA] + [(4, a + b, "steer") for a in '[{"0-tn' for b in '"0.e\\ ]'])
@@ -87,8 +91,9 @@ CONDITIONS = [
                      "code points; quick: len 0 any, len 1 ascii, len 2 steer, len 3 steer with first character in '0-tn.'; "
                      "thorough: len 1 any, len 2 ascii with first char in steer, len 3 steer, len 4 steer with 49 prefixes",
               functions=_FN),
-    Condition(c34_int, slices=[3], thorough_slices=[3, 6], timeout=60, thorough_timeout=300,
-              bounds="ints |x| < 10**slice", functions=_FN),
+    Condition(c34_int, slices=_INT_Q, thorough_slices=_INT_T, timeout=100, thorough_timeout=600,
+              bounds="ints in the window slice = [lo, hi]: around 0, and around the magnitudes where an int stops being exactly "
+                     "representable as a float (2**53), 64-bit limits, 10**22 and a 40-digit number", functions=_FN),
     Condition(c34_literal, timeout=30, bounds="True / False / None", functions=_FN),
     Condition(c34_list, slices=[(1, 2)], thorough_slices=[(1, 10), (2, 2)], timeout=150, thorough_timeout=900,
               bounds="[s, x, b, None], slice = (max len(s) over the steering alphabet, bound on |x|)", functions=_FN),
